@@ -689,6 +689,108 @@ int main(int argc, char** argv) {
     return tests, table_only, ops
 
 
+def build_split(hpath):
+    """ASan/UBSan build of library core, binding and generated harness, cached separately: an edit under
+    bindings/c recompiles five files and the harness, not the 24 library sources (vp.build_lib keys
+    everything on every repo file).  Same flags as vp's `san` variant."""
+    import glob, shlex, shutil
+    cf, lf = vp.VARIANTS["san"]
+    base = list(vp.BASE_CXX) + cf
+    inc = ["-I" + os.path.join(vp.REPO, "bindings/c/include"), "-I" + os.path.join(vp.REPO, "bindings/c")]
+    core_srcs = sorted(glob.glob(os.path.join(vp.REPO, "src/*.cpp")))
+    core_deps = core_srcs + glob.glob(os.path.join(vp.REPO, "src/*.h")) + glob.glob(os.path.join(vp.REPO, "include/manifold/*.h"))
+    import hashlib
+
+    def content_hash(files, extra):
+        # contents and repo-relative names only: a scratch worktree with the same library sources shares the core build
+        h = hashlib.sha256(extra.encode())
+        for f_ in sorted(files):
+            h.update(os.path.relpath(f_, vp.REPO).encode())
+            h.update(open(f_, "rb").read())
+        return h.hexdigest()[:16]
+    flags_id = " ".join(x for x in base if not x.startswith("-I"))
+    ckey = content_hash(core_deps, flags_id)
+    cdir = os.path.join(vp.BUILD, "c20core-" + ckey)
+    core = os.path.join(cdir, "libcore.a")
+
+    def compile_all(d, srcs, flags):
+        os.makedirs(d, exist_ok=True)
+        jobs = [" ".join(shlex.quote(x) for x in flags + ["-c", s_, "-o", os.path.join(d, os.path.basename(s_) + ".o")]) for s_ in srcs]
+        rc, out = vp.sh(["xargs", "-P", str(vp.NPROC), "-I", "CMD", "bash", "-c", "CMD"], input="\n".join(jobs) + "\n", timeout=2400)
+        if rc != 0:
+            shutil.rmtree(d, ignore_errors=True)
+            raise vp.BuildError("C20 build failed:\n" + out[-3000:])
+    if not os.path.exists(core):
+        compile_all(cdir, core_srcs, base)
+        rc, out = vp.sh("ar rcs %s %s/*.o" % (shlex.quote(core), shlex.quote(cdir)))
+        if rc != 0:
+            raise vp.BuildError(out)
+    os.utime(cdir)
+    bsrcs = sorted(glob.glob(os.path.join(vp.REPO, "bindings/c/*.cpp")))
+    bkey = vp.file_hash(vp.repo_sources(), " ".join(base))
+    bdir = os.path.join(vp.BUILD, "c20bind-" + bkey)
+    if not all(os.path.exists(os.path.join(bdir, os.path.basename(s_) + ".o")) for s_ in bsrcs):
+        compile_all(bdir, bsrcs, base + inc)
+    os.utime(bdir)
+    hdrs = glob.glob(os.path.join(vp.ROOT, "harness", "c20_*.h"))
+    hkey = vp.file_hash(vp.repo_sources() + [hpath] + hdrs, " ".join(base))
+    hdir = os.path.join(vp.BUILD, "h-c20_cbind-split-" + hkey)
+    exe = os.path.join(hdir, "c20_cbind")
+    if not os.path.exists(exe):
+        os.makedirs(hdir, exist_ok=True)
+        cmd = base + ["-O0"] + inc + [hpath] + sorted(glob.glob(os.path.join(bdir, "*.o"))) + [core, "-o", exe] + lf + ["-lpthread"]
+        rc, out = vp.sh(cmd, timeout=2400)
+        if rc != 0:
+            shutil.rmtree(hdir, ignore_errors=True)
+            raise vp.BuildError("generated harness failed to build against the binding:\n" + out[-4000:])
+    os.utime(hdir)
+    for pref in ("c20core-", "c20bind-", "h-c20_cbind-split-"):
+        for d in glob.glob(os.path.join(vp.BUILD, pref + "*")):
+            if d not in (cdir, bdir, hdir) and time.time() - os.path.getmtime(d) > 6 * 3600:
+                shutil.rmtree(d, ignore_errors=True)
+    return exe
+
+
+def diagnose(cx, work):
+    """The Coq obligations failed: ask Coq which table entries / tables are rejected (names only)."""
+    v = os.path.join(work, "C20Diag.v")
+    with open(v, "w") as f:
+        f.write("""From Coq Require Import String List Bool.
+From MV Require Import Proto.CBindDefs Gen.CBind.
+Import ListNotations.
+Definition handles := map (fun t => (fst (fst t), snd (fst t))) handles_from.
+Eval vm_compute in ("ENTRIES"%string, map e_name (filter (fun e => negb (wrapper_ok_with handles c_structs e)) table)).
+Eval vm_compute in ("FAMILIES"%string, filter (fun h => negb (family_ok table handles h)) opaque_handles,
+                    map e_name (filter (fun e => negb (size_entry_ok handles e)) table), handle_maps_ok handles_from handles_to).
+Eval vm_compute in ("ENUMS"%string, map (fun t => fst (fst t)) (filter (fun t => negb (enum_from_ok c_enums cxx_enums t)) enum_from),
+                    map (fun t => fst (fst t)) (filter (fun t => negb (enum_to_ok c_enums cxx_enums t)) enum_to),
+                    enum_roundtrip_ok enum_from enum_to, enums_covered c_enums enum_from enum_to, forallb vec_conv_ok vec_convs).
+Eval vm_compute in ("COMPLETE"%string, header_only, undeclared).
+""")
+    rc, out = vp.sh(["coqc", "-Q", vp.COQ, "MV", v], cwd=work, timeout=300)
+    flat = " ".join(out.split())
+    sus = []
+    m = re.search(r'"ENTRIES"%string, \[(.*?)\]\)', flat)
+    if m:
+        for fn in re.findall(r'"(\w+)"', m.group(1)):
+            sus.append(fn)
+            cx.broke("wrappers_faithful:" + fn, "table entry of %s is rejected by wrapper_ok (routing / placement / callback context no longer as specified)" % fn)
+    m = re.search(r'"FAMILIES"%string, \[(.*?)\], \[(.*?)\]', flat)
+    if m:
+        for h in re.findall(r'"(\w+)"', m.group(1)):
+            cx.broke("families_consistent:" + h, "size/alloc/destruct/delete family of %s no longer uses one and the same C++ type" % h)
+            sus.append("*")
+        for fn in re.findall(r'"(\w+)"', m.group(2)):
+            cx.broke("families_consistent:" + fn, "%s returns the size of a type that is no handle type" % fn)
+    m = re.search(r'"ENUMS"%string, \[(.*?)\], \[(.*?)\]', flat)
+    if m:
+        for en in re.findall(r'"(\w+)"', m.group(1) + " " + m.group(2)):
+            cx.broke("enum_tables_bijective:" + en, "switch table converting %s no longer maps identically named enumerators one to one" % en)
+            sus.append("*")
+    cx.cov["coq_diagnosis"] = flat[-1500:]
+    return sus
+
+
 # --------------------------------------------------------------------- run
 
 def run(cx):
@@ -702,8 +804,19 @@ def run(cx):
     gen_v = os.path.join(vp.COQ, "Gen", "CBind.v")
     t0 = time.time()
     T = None
+    # the table is a pure function of the binding sources, the public headers, the translator and clang:
+    # content-hash keyed cache (any edit under bindings/c, include/ or src/ re-runs clang)
+    key = vp.file_hash(vp.repo_sources() + [os.path.join(vp.ROOT, "translate", "c20_cbind.py")], "clang14")
+    cached = os.path.join(work, "cbind-%s.json" % key)
     try:
-        T = TR.translate(vp.REPO, work, gen_v, os.path.join(work, "cbind.json"))
+        if os.path.exists(cached):
+            T = json.load(open(cached))
+            TR.emit_coq(gen_v, T)
+            cx.notes.append("translator table reused from content-hash cache %s" % os.path.basename(cached))
+        else:
+            T = TR.translate(vp.REPO, work, gen_v, os.path.join(work, "cbind.json"))
+            with open(cached, "w") as f:
+                json.dump(T, f)
         cx.obligation("translate:every exported function classified", True)
     except TR.Unclassified as ex:
         cx.obligation("translate:every exported function classified", False,
@@ -720,7 +833,8 @@ def run(cx):
         kinds[e["kind"]["k"]] = kinds.get(e["kind"]["k"], 0) + 1
     cx.cov["functions"] = len(T["entries"])
     cx.cov["function_kinds"] = kinds
-    cx.prove()
+    proved = cx.prove()
+    suspects = [] if proved else diagnose(cx, work)
 
     ntuples = cx.pick(4, 12)
     hpath = os.path.join(vp.ROOT, "harness", "c20_cbind.cpp") if vp.REPO == "/repo" else os.path.join(work, "c20_cbind.cpp")
@@ -728,11 +842,16 @@ def run(cx):
     cx.cov["table_checked_only"] = [{"function": f, "why": w} for f, w in table_only]
     cx.cov["families_exercised_by_every_handle_test"] = sorted(
         e["name"] for e in T["entries"] if e["kind"]["k"] in ("alloc", "destruct", "delete"))
-    exe = vp.build_harness("c20_cbind", "san", cbind=True, sources=[hpath], extra=("-O0",))
+    exe = build_split(hpath)
     lines = []
     for fn, k in tests:
         for t in range(k):
             lines.append("%s %d" % (fn, (t + cx.seed) % 12 if k > 1 else 0))
+    # search aimed at the functions whose table entry no longer passes the Coq checkers: all 12 tuples
+    for fn in suspects:
+        for fn2, k in tests:
+            if k > 1 and fn2 == fn:
+                lines += ["%s %d" % (fn2, t) for t in range(12) if "%s %d" % (fn2, t) not in lines]
     rng = random.Random(cx.seed * 7919 + 20)
     nprog = cx.pick(10, 200)
     prog_lines = ["PROG %d 40" % rng.randrange(1, 10 ** 6) for _ in range(nprog)]
@@ -745,8 +864,10 @@ def run(cx):
     from concurrent.futures import ThreadPoolExecutor
     allc = lines + prog_lines
     nw = max(1, min(8, vp.NPROC // 2))
-    chunks = [allc[i::nw] for i in range(nw)]
-    with ThreadPoolExecutor(nw) as ex:
+    size_cases = [l for l in allc if l.split()[0].endswith("_size")]       # cannot crash: own chunk, never starved by restarts
+    rest_cases = [l for l in allc if not l.split()[0].endswith("_size")]
+    chunks = [size_cases] + [rest_cases[i::nw] for i in range(nw)]
+    with ThreadPoolExecutor(nw + 1) as ex:
         parts = list(ex.map(lambda ch: vp.run_cases(exe, ch, kl, ko, timeout=1500, max_restarts=6, env=env), chunks))
     out = "".join(p[0] for p in parts)
     crashes = [c for p in parts for c in p[1]]
@@ -757,7 +878,7 @@ def run(cx):
             p = l.split(" ", 4)
             results[(p[1], p[2])] = (p[3], p[4] if len(p) > 4 else "")
     ndiff, nontriv, seen = 0, 0, set()
-    for (fn, t), (st, rest) in sorted(results.items()):
+    for (fn, t), (st, rest) in sorted(results.items(), key=lambda kv: (kv[0][0] == "PROG", kv[0])):
         if st == "DIFF" and fn == "PROG":
             ndiff += 1
             args, _, what = rest.partition("|")
@@ -774,13 +895,21 @@ def run(cx):
             cx.broke("corr:C20/" + fn, "test for %s missing from the generated harness" % fn)
         if (fn, rest.partition("|")[0]) not in seen:
             seen.add((fn, rest.partition("|")[0]))
-            nontriv += 1
-    for cl, rc, err in crashes:
+            if "(empty array" not in rest and st in ("OK", "DIFF"):
+                nontriv += 1
+    for n_cr, (cl, rc, err) in enumerate(crashes):
         fn = cl.split()[0] if cl and not cl.startswith("<") else "exit"
-        kind = "leak" if "LeakSanitizer" in err or rc == 24 else "sanitizer" if ("Sanitizer" in err or "runtime error" in err or rc == 23) else "crash"
-        m = re.search(r"(ERROR: \w+Sanitizer: [^\n]*|runtime error: [^\n]*|SUMMARY: [^\n]*)", err)
-        cx.violation("cbind:" + fn, "%s: %s report (rc=%s) while calling the C function and its C++ mirror: %s" % (fn, kind, rc, (m.group(1) if m else err[-200:])[:300]),
-                     {"function": fn, "case": cl, "rc": rc, "stderr_tail": err[-600:], "replay": "echo '%s' | %s" % (cl, exe)})
+        if n_cr < 8 and not cl.startswith("<"):
+            # run_cases keeps only the tail of stderr: re-run the one case to get the head of the sanitizer report
+            rc1, _o, err1 = vp.sh2([exe], input=cl + "\n", timeout=300, env=env)
+            if rc1 != 0:
+                rc, err = rc1, err1
+        m = re.search(r"(ERROR: \w+Sanitizer: [^\n]*|runtime error: [^\n]*|terminate called[^\n]*)", err)
+        sm = re.search(r"SUMMARY: [^\n]*", err)
+        kind = "LeakSanitizer" if "LeakSanitizer" in err else "sanitizer" if ("Sanitizer" in err or "runtime error" in err or "ABORTING" in err or rc in (23, 24)) else "crash"
+        head = ((m.group(1) if m else "") + " " + (sm.group(0) if sm else "")).strip() or err[-200:]
+        cx.violation("cbind:" + fn, "%s: %s report (rc=%s) while calling the C function and its C++ mirror: %s" % (fn, kind, rc, head[:300]),
+                     {"function": fn, "case": cl, "rc": rc, "report": head[:600], "stderr_tail": err[-600:], "replay": "echo '%s' | %s" % (cl, exe)})
     missing = [l for l in lines if tuple(l.split()[:2]) not in results and not any(c[0] == l for c in crashes)]
     if missing and not crashes:
         cx.broke("corr:C20/harness", "no result for %d cases, e.g. %s" % (len(missing), missing[:3]))
